@@ -365,8 +365,12 @@ class SymInterp(Interp):
                     n *= x
                 if n != a.size:
                     raise PyRaise("ValueError", node, f"cannot reshape array of size {a.size} into shape {tuple(shape)}")
-                # a reshape of a contiguous array is a view of the same memory
-                return SArr(tuple(shape), None, base=a.base, dtype=a.dtype, view=(a, list(range(a.size))))
+                # NumPy returns a view when the new shape can be laid over the same memory with strides, a copy otherwise
+                if order == "C" and S.strided_view_possible(S.mem_positions(a), shape):
+                    return SArr(tuple(shape), None, base=a.base, dtype=a.dtype, view=(a, list(range(a.size))))
+                if order != "C":
+                    raise AnalysisAbort("reshape with order other than C")
+                return SArr(tuple(shape), list(a.data), dtype=a.dtype)
             return reshape
         raise AnalysisAbort(f"ndarray.{name} is not modelled (symbolic arrays)")
 
@@ -447,7 +451,7 @@ class SymInterp(Interp):
                 fv = {"zeros_like": 0, "ones_like": 1, "empty_like": Rat.sym("uninitialised")}.get(_n, fill_value)
                 r = S.asarr(fv).broadcast_to(S.asarr(a).shape).copy()
                 r.dtype = getattr(a, "dtype", "float") if dtype is None else "float"
-                return r
+                return S.keep_layout(a, r) if isinstance(a, SArr) else r
             return like
         if name in ("array", "asarray"):
             def array(x, dtype=None, copy=None):
